@@ -1,7 +1,7 @@
 (* The B&B model instantiated with the C03 simplex model as LP kernel, and the observables / boolean comparison
    used by the generated correspondence files (coq/Cases/C04/*.v).  Definitions only. *)
 From Coq Require Import List QArith Qabs Bool Arith ZArith.
-From SV Require Import C03.Simplex C03.LPSpec C04.Milp.
+From SV Require Import C03.Simplex C03.LPSpec C04.Milp C04.MilpSpec.
 Import ListNotations.
 Open Scope Q_scope.
 
@@ -91,4 +91,40 @@ Definition lns_answer_ok (k : milp_case) : bool :=
   match k_lns_answer k with
   | None => true
   | Some x => Nat.eqb (length x) (length (k_c k)) && is_feasible (k_eps k) x (k_A k) (k_b k) (k_ints k)
+  end.
+
+(* ---------- checks independent of the model's answer *)
+(* the implementation's Result, judged by the boolean specification proved sound in MilpSpec (spec_check_sound) *)
+Definition impl_result (k : milp_case) : milp_result :=
+  mkM (o_status k) (o_solution k) (o_objective k) 0 (o_solutions k).
+Definition impl_spec_check (k : milp_case) : bool :=
+  spec_check (k_eps k) (k_c k) (k_A k) (k_b k) (k_ints k) (1 # 1000000) (impl_result k).
+
+(* the boolean hypotheses of the C04 theorems on this input, with the simplex model as LP kernel *)
+Definition gate_check (k : milp_case) : bool :=
+  milp_input_ok (k_eps k) (k_c k) (k_A k) (k_b k) (k_ints k).
+
+(* exact arithmetic with eps = 0 (milp and LP kernel) gives the same Result as with the code's eps = 1e-6 *)
+Definition with_eps (e : Q) (k : milp_case) : milp_case :=
+  mkK (k_c k) (k_A k) (k_b k) (k_ints k) (k_min k) e (k_gap k) (k_iter k) (k_nodes k) (k_warm k) (k_limit k) (k_heur k)
+      (k_lns k) (k_lns_answer k) (o_status k) (o_solution k) (o_objective k) (o_nodes k) (o_solutions k).
+
+Definition qext_eqb (a b : qext) : bool :=
+  match a, b with
+  | Fin x, Fin y => Qeq_bool x y
+  | PInf, PInf | NInf, NInf => true
+  | _, _ => false
+  end.
+
+Definition res_eqb (r1 r2 : milp_result) : bool :=
+  mstatus_eqb (m_status r1) (m_status r2)
+  && opt2 (all2 Qeq_bool) (m_solution r1) (m_solution r2)
+  && qext_eqb (m_objective r1) (m_objective r2)
+  && Nat.eqb (m_nodes r1) (m_nodes r2)
+  && opt2 (all2 (all2 Qeq_bool)) (m_solutions r1) (m_solutions r2).
+
+Definition eps0_check (k : milp_case) : bool :=
+  match run_case k, run_case (with_eps 0 k) with
+  | Some r1, Some r2 => res_eqb r1 r2
+  | _, _ => false
   end.
